@@ -20,10 +20,15 @@ Definition mode_eqb (a b : mode) : bool :=
 
 (* The program's calls.  [f] flags: the environment makes the delegated B-tree call / the
    protocol phase fail. *)
+(* how the undo inside Transaction.Rollback fares: no failure / the store-repository step (removing
+   a store created by the transaction, putting the count back) fails and is not performed / another
+   step fails (the rest of the undo is still carried out: rollback() only remembers the last error) *)
+Inductive rbfail := RbNone | RbStore | RbOther.
+
 Inductive call :=
 | CBegin
 | CCommit (f1 f2 : bool)
-| CRollback
+| CRollback (f : rbfail)
 | CP1 (f : bool)
 | CP2 (f : bool)
 | CClose
@@ -114,11 +119,17 @@ Definition undo (s : state) : state :=
 Definition undo_rewound (s : state) : state :=
   if created s then set_disk s None else s.
 
-(* Transaction.Rollback *)
-Definition do_rollback (s : state) : result * state :=
+(* Transaction.Rollback.  phaseDone = 2 is set BEFORE the undo runs: a Rollback whose undo fails
+   returns the error but the transaction is over all the same. *)
+Definition do_rollback_f (f : rbfail) (s : state) : result * state :=
   if phase s =? 2 then ((if committed s then RErr else ROk), s)
   else if negb (has_begun s) then (RErr, s)
-  else (ROk, undo (set_phase s 2)).
+  else match f with
+       | RbNone => (ROk, undo (set_phase s 2))
+       | RbOther => (RErr, undo (set_phase s 2))
+       | RbStore => (RErr, set_phase s 2)
+       end.
+Definition do_rollback (s : state) : result * state := do_rollback_f RbNone s.
 
 (* Transaction.Begin *)
 Definition do_begin (s : state) : result * state :=
@@ -204,10 +215,12 @@ Definition do_p2 (f : bool) (s : state) : result * state :=
     let s2 := set_phase s 2 in
     match tmode s with
     | ForWriting =>
-        match prepared s with
-        | Some w => if f then (RErr, undo s2) else (ROk, set_committed (set_disk s2 (set_items (disk s) w)))
-        | None => (ROk, set_committed s2)
-        end
+        (* phase2Commit always logs finalizeCommit first, also when phase 1 had nothing to persist *)
+        if f then (RErr, undo s2)
+        else match prepared s with
+             | Some w => (ROk, set_committed (set_disk s2 (set_items (disk s) w)))
+             | None => (ROk, set_committed s2)
+             end
     | _ => (ROk, set_committed s2)
     end.
 
@@ -276,7 +289,7 @@ Definition step (s : state) (c : call) : result * state :=
   match c with
   | CBegin => do_begin s
   | CCommit f1 f2 => do_commit f1 f2 s
-  | CRollback => do_rollback s
+  | CRollback f => do_rollback_f f s
   | CP1 f => do_p1 f s
   | CP2 f => do_p2 f s
   | CClose => (ROk, s)
@@ -315,7 +328,7 @@ Definition disk_wf (d : option store) : Prop :=
 (* the result call [c] gets when it is issued after the calls [a] *)
 Definition result_at (s0 : state) (a : list call) (c : call) : result := fst (step (state_after s0 a) c).
 (* calls whose success ends the transaction *)
-Definition is_end (c : call) : bool := match c with CCommit _ _ | CP2 _ | CRollback => true | _ => false end.
+Definition is_end (c : call) : bool := match c with CCommit _ _ | CP2 _ | CRollback _ => true | _ => false end.
 Definition is_commit (c : call) : bool := match c with CCommit _ _ | CP2 _ => true | _ => false end.
 (* calls that enter the commit protocol *)
 Definition is_commit_phase (c : call) : bool := match c with CCommit _ _ | CP1 _ | CP2 _ => true | _ => false end.
